@@ -188,6 +188,24 @@ Example C08_nonvacuous :
   /\ votes demo_final 1 = [(0, 1)].
 Proof. exact demo_applied_once. Qed.
 
+(* ---- the vote store is rewritten by other modules: address rotation (x/recovery).  In the model the
+   votes in force follow the PERSON ([votes_of] renames at [EvRotate]); every tally, quorum and
+   "applied only if passed" statement above is about those votes.  A rotation moves exactly one vote: *)
+Theorem C08_rotation_moves_the_vote : forall old new vs o, old <> new -> get_vote old vs = Some o ->
+  get_vote new (rename_vote old new vs) = Some o /\ get_vote old (rename_vote old new vs) = None.
+Proof. exact rename_vote_moves. Qed.
+Print Assumptions C08_rotation_moves_the_vote.
+
+Theorem C08_one_vote_per_person :
+  forall A content id (l : list (event A content)), NoDup (map fst (votes_of id l)).
+Proof. exact votes_of_nodup. Qed.
+Print Assumptions C08_one_vote_per_person.
+
+(* every writer of proposals / votes / queues in the tree is a known one (table regenerated on every run) *)
+Theorem C08_lifecycle_writers_pinned : lifecycle_writers = pinned_writers.
+Proof. exact lifecycle_writers_pinned. Qed.
+Print Assumptions C08_lifecycle_writers_pinned.
+
 (* ---- chk_sound: the spec checker (Model/C08Check.v) applied to REAL observations decides with
    functions that agree with the model's oracles, and the clauses it evaluates at a finalisation,
    an application and an accepted vote hold in EVERY run of the instantiated model ([cP] = the
